@@ -1,4 +1,5 @@
 """Transitive effect queries over the call graph (shared by C05.R3, C07.R4, C19)."""
+import ast
 from typing import List, Optional, Tuple
 
 from .. import astutil as A
@@ -43,3 +44,206 @@ QUERY_METHODS = (
     "list_functions", "list_mementos", "make_url_for_result",
 )
 MUTATOR_METHODS = ("memoize", "write_metadata", "forget_call", "forget_function", "forget_everything")
+
+
+# ---------------------------------------------------------------------------------------------
+# Path-sensitive helpers shared by C07 / C08 / C19 rules.  They let a rule state a clause as
+# "under the assumption P (the override is set / the pointer exists / the backend is read-only)
+# statement S is (un)reachable / variable v holds one of these values", whatever the spelling of
+# the branch tests (guard clause, nested if, negation, De Morgan, flag local, conditional
+# expression).
+# ---------------------------------------------------------------------------------------------
+_NEG_OPS = {ast.IsNot: ast.Is, ast.NotEq: ast.Eq, ast.NotIn: ast.In}
+
+
+def strip_casts(e):
+    """`cast(T, x)` -> x, `bool(x)` -> x (truth value), `str(x)` kept."""
+    while isinstance(e, ast.Call) and isinstance(e.func, ast.Name) and (
+            (e.func.id == "cast" and len(e.args) == 2) or (e.func.id == "bool" and len(e.args) == 1)) and not e.keywords:
+        e = e.args[-1]
+    return e
+
+
+class Assume:
+    """Reachability and reaching definitions of one function under assumptions about atomic conditions.
+
+    `atom(expr)` is given an *expanded* (FA.expand: locals replaced by their unique definitions) atomic
+    condition and answers True / False / None (unknown).  Branch tests and conditional expressions are
+    evaluated three-valued over their atoms; an edge whose test is decided the other way is infeasible."""
+
+    def __init__(self, fa, atom):
+        self.fa = fa
+        self.atom = atom
+        self._t = {}
+        self._in = None
+
+    # -- three-valued truth --------------------------------------------------------------------
+    def ev(self, e):
+        e = strip_casts(e)
+        v = self.atom(e)
+        if v is not None:
+            return v
+        if isinstance(e, ast.Constant):
+            return bool(e.value)
+        if isinstance(e, ast.UnaryOp) and isinstance(e.op, ast.Not):
+            r = self.ev(e.operand)
+            return None if r is None else (not r)
+        if isinstance(e, ast.BoolOp):
+            rs = [self.ev(v_) for v_ in e.values]
+            if isinstance(e.op, ast.And):
+                if any(r is False for r in rs):
+                    return False
+                return True if all(r is True for r in rs) else None
+            if any(r is True for r in rs):
+                return True
+            return False if all(r is False for r in rs) else None
+        if isinstance(e, ast.Compare) and len(e.ops) == 1 and type(e.ops[0]) in _NEG_OPS:
+            pos = ast.Compare(left=e.left, ops=[_NEG_OPS[type(e.ops[0])]()], comparators=e.comparators)
+            r = self.ev(pos)
+            return None if r is None else (not r)
+        if isinstance(e, ast.IfExp):
+            t = self.ev(e.test)
+            if t is True:
+                return self.ev(e.body)
+            if t is False:
+                return self.ev(e.orelse)
+            a, b = self.ev(e.body), self.ev(e.orelse)
+            return a if a == b else None
+        return None
+
+    def truth(self, test, node_id):
+        k = (id(test), node_id)
+        if k not in self._t:
+            try:
+                e = self.fa.expand(test, node_id)
+            except Exception:  # noqa - an expression the expander cannot place: unknown
+                e = test
+            self._t[k] = self.ev(e)
+        return self._t[k]
+
+    # -- control flow --------------------------------------------------------------------------
+    def edge_ok(self, s, d, l):
+        if l in ("T", "F"):
+            nd = self.fa.cfg.node(s)
+            if nd.kind == "test":
+                t = self.truth(nd.ast, s)
+                if (t is True and l == "F") or (t is False and l == "T"):
+                    return False
+        return True
+
+    def reach(self, starts=None, removed=(), include_start=True):
+        cfg = self.fa.cfg
+        return cfg.reach([cfg.entry] if starts is None else starts, removed=removed, edge_ok=self.edge_ok, include_start=include_start)
+
+    def live(self, astnode):
+        """CFG nodes of `astnode` that are reachable from the entry under the assumptions."""
+        r = self.reach()
+        return [i for i in self.fa.nodes(astnode) if i in r]
+
+    # -- reaching definitions restricted to the feasible edges -----------------------------------
+    def flow(self, seeds=None, removed=()):
+        """IN sets of a reaching-definitions analysis over the feasible sub-graph.  `seeds` = {node: defs}
+        starts the analysis at those nodes (with those definitions flowing in) instead of the entry.  A
+        statement that raises has not assigned: along 'exc' edges the state *before* the statement flows.
+        `removed` nodes are not entered (e.g. a loop head, to stay inside one iteration)."""
+        fa = self.fa
+        cfg, df = fa.cfg, fa.df
+        if seeds is None:
+            seeds = {cfg.entry: set()}
+        region = self.reach(list(seeds), removed=removed)
+        IN = {n: set() for n in region}
+        OUT = {n: set() for n in region}
+        for n, ds in seeds.items():
+            IN[n] |= set(ds)
+
+        def transfer(n):
+            if n == cfg.entry:
+                return set(df.OUT[cfg.entry])
+            gen = df.gen.get(n, [])
+            killed = {d.name for d in gen if d.kind != "aug"}
+            out = {d for d in IN[n] if d.name not in killed and not any(d.name.startswith(k + ".") for k in killed)}
+            return out | set(gen)
+
+        work = list(region)
+        while work:
+            n = work.pop()
+            newout = transfer(n)
+            OUT[n] = newout
+            for (d, l) in cfg.succ[n]:
+                if d not in region or not self.edge_ok(n, d, l):
+                    continue
+                add = IN[n] if l == "exc" else newout
+                if not add <= IN[d]:
+                    IN[d] |= add
+                    work.append(d)
+        return IN
+
+    def IN(self):
+        if self._in is None:
+            self._in = self.flow()
+        return self._in
+
+    def handler_seed(self, hn):
+        """Definitions that flow into an `except` head (state before the raising statement on 'exc' edges)."""
+        df, cfg = self.fa.df, self.fa.cfg
+        s = set()
+        for (p, l) in cfg.pred[hn]:
+            s |= df.IN[p] if l == "exc" else df.OUT[p]
+        return s
+
+    def cases(self, expr, node_id, IN=None, depth=10):
+        """The leaf expressions `expr` (evaluated at `node_id`) may take its value from: conditional
+        expressions are split (a branch the assumptions exclude is dropped), a local name is followed to all
+        of its reaching plain assignments.  -> [(leaf expr, cfg node at which it is evaluated)]"""
+        IN = self.IN() if IN is None else IN
+        out = []
+        seen = set()
+
+        def rec(e, n, dep):
+            if dep <= 0 or (id(e), n) in seen:
+                out.append((e, n))
+                return
+            seen.add((id(e), n))
+            if isinstance(e, ast.IfExp):
+                t = self.truth(e.test, n)
+                if t is not False:
+                    rec(e.body, n, dep - 1)
+                if t is not True:
+                    rec(e.orelse, n, dep - 1)
+                return
+            if isinstance(e, ast.Name) and isinstance(e.ctx, ast.Load):
+                ds = [d for d in IN.get(n, ()) if d.name == e.id]
+                if ds and all(d.kind == "assign" and d.value is not None for d in ds):
+                    for d in sorted(ds, key=lambda d_: d_.node):
+                        rec(d.value, d.node, dep - 1)
+                    return
+            out.append((e, n))
+
+        rec(expr, node_id, depth)
+        return out
+
+    def texts(self, expr, node_id, IN=None):
+        """Name-independent texts of the values `expr` may take (see cases)."""
+        return {self.fa.xnorm(e, n) for (e, n) in self.cases(expr, node_id, IN)}
+
+
+def param_truth_atom(name, value, more=None):
+    """atom function: the parameter `name` is truthy (value=True) / falsy (value=False); `more(expr)`
+    decides further atoms."""
+    def atom(e):
+        if isinstance(e, ast.Name) and e.id == name:
+            return value
+        if isinstance(e, ast.Compare) and len(e.ops) == 1 and isinstance(e.ops[0], ast.Is) and isinstance(e.left, ast.Name) \
+                and e.left.id == name and A.is_none(e.comparators[0]):
+            return False if value else None      # truthy => not None; falsy says nothing ('' is falsy)
+        return more(e) if more is not None else None
+    return atom
+
+
+def call_atom(names, value, more=None):
+    """atom function: a call of one of the methods `names` answers `value`."""
+    def atom(e):
+        if isinstance(e, ast.Call) and A.call_attr(e) in names:
+            return value
+        return more(e) if more is not None else None
+    return atom
